@@ -25,7 +25,7 @@ func init() {
 	c := eng.Register(&eng.Check{
 		ID:          "C20",
 		Title:       "A runner behaves like a plain map of data plus a separate key-value store",
-		Rule:        "operation menu of 27 (SetThis with nil / fresh maps / the same map again, SetThisValue, Resolve of 8 formulas that read and assign locals and fields, Set, Get): every history up to depth d is replayed on a fresh real runner in lock-step with a plain-map reference model (no state merging); then breadth-first to depth 5 (quick) / 7 (thorough) with merging on the canonical observed state, where a state reached a second way must answer every probe like the first; after every step all caller-visible maps must equal the model's; distinct = distinct canonical states",
+		Rule:        "operation menu of 29 (SetThis with nil / fresh maps / the same map again, SetThisValue, Resolve of 8 formulas that read and assign locals and fields, Set, Get): every history up to depth d is replayed on a fresh real runner in lock-step with a plain-map reference model (no state merging); then breadth-first to depth 5 (quick) / 7 (thorough) with merging on the canonical observed state, where a state reached a second way must answer every probe like the first; after every step all caller-visible maps must equal the model's; distinct = distinct canonical states",
 		TrustedBase: []string{"plain-map model of the runner in checks/c20.go"},
 		Assumptions: []string{"merging drops caller maps the runner no longer references; leaks into them are covered by the unmerged exploration"},
 		Run:         runC20,
@@ -42,10 +42,11 @@ var c20OpNames = []string{
 	"Resolve(x)", "Resolve($a)", "Resolve($a = x)", "Resolve($a = 2)", "Resolve($b = $a)", "Resolve([$a,$b,x])", "Resolve(this.x)", "Resolve(this)",
 	"Set(x,1)", "Set($a,2)", "Set(x,2)", "Get(x)", "Get($a)",
 	"Resolve($a = 7 / 3)", "Resolve(($a ?? 1) * 3)", "Resolve($a = 9007199254740993)", "Resolve(($a ?? 0) - 9007199254740992)", "Resolve($a = ($b = 2))",
+	"Resolve($a = 2.75)", "Resolve(len(left('abcdef', $a ?? 1)))",
 }
 
 var c20Formulas = map[int]string{9: "x", 10: "$a", 11: "$a = x", 12: "$a = 2", 13: "$b = $a", 14: "[$a,$b,x]", 15: "this.x", 16: "this",
-	22: "$a = 7 / 3", 23: "($a ?? 1) * 3", 24: "$a = 9007199254740993", 25: "($a ?? 0) - 9007199254740992", 26: "$a = ($b = 2)"}
+	22: "$a = 7 / 3", 23: "($a ?? 1) * 3", 24: "$a = 9007199254740993", 25: "($a ?? 0) - 9007199254740992", 26: "$a = ($b = 2)", 27: "$a = 2.75", 28: "len(left('abcdef', $a ?? 1))"}
 
 // exact values behind the canonical strings of the model (numbers only)
 var c20Decs = map[string]ref.Dec{}
@@ -173,7 +174,7 @@ func (w *c20World) apply(op int) *eng.Fail {
 		v := []float64{1, 2, 1, 2}[op-5]
 		w.r.SetThisValue(k, v)
 		w.ensure()[k] = canonImpl(v)
-	case op >= 9 && op <= 16, op >= 22 && op <= 26:
+	case op >= 9 && op <= 16, op >= 22 && op <= 28:
 		src := c20Formulas[op]
 		p, err := cachedParse(src)
 		if err != nil {
@@ -245,6 +246,18 @@ func (w *c20World) apply(op int) *eng.Fail {
 		case 25:
 			sub, _ := ref.ParseDec("9007199254740992")
 			want = c20Canon(ref.Sub(c20Dec(get(m, "$a"), "0"), sub).RoundHE(34))
+		case 27:
+			v, _ := ref.ParseDec("2.75")
+			want = c20Canon(v)
+			w.ensure()["$a"] = want
+		case 28:
+			// an int parameter receives the local truncated toward zero; the local itself stays as it is
+			n := ratTrunc(c20Dec(get(m, "$a"), "1").Rat())
+			k := int64(6)
+			if n.IsInt64() && n.Int64() < 6 {
+				k = n.Int64()
+			}
+			want = c20Canon(ref.FromInt64(k))
 		case 26:
 			want = "n2"
 			mm := w.ensure()
